@@ -99,6 +99,13 @@ def ensure_binary(ctx, log=True):
                 else:
                     os.utime(f)
         changed = _sync_sources(tree, fresh)
+        if fresh or changed:
+            # src/Makefile does not list every convenience library as a dependency of the squid binary: force a relink
+            for b in ('squid',):
+                try:
+                    os.unlink(os.path.join(tree, 'src', b))
+                except OSError:
+                    pass
         for sub in (('compat', 'lib', 'src') if (fresh or changed) else ()):
             r = vlib.sh(['make', '-C', os.path.join(tree, sub), '-j%d' % vlib.NCPU, 'CPPFLAGS=' + CPPFLAGS], timeout=3000)
             if r.returncode != 0:
